@@ -8,7 +8,9 @@
    table, expansion keeps it so, and on such forests the catalog builder never reaches one of its
    impossible states; the directive layer never dereferences a missing directive; INCLUDE-name
    validation is total; the crash-site inventory regenerated from the source is within the reviewed
-   list; the inputs that used to crash no longer do.  Not proved: termination and panic-freedom of
+   list; the inputs that used to crash no longer do.  Not proved: the scanner's index-range panic (a negative cursor, the
+   previous-byte test at the first byte, a parameter lexeme without value) is excluded by the search only;
+   termination and panic-freedom of
    the schema dependency (jsight-schema-core: user type compilation, examples - finding F27 lives
    there) and of encoding/json; real stack depth and wall time are measured by the search. *)
 From JS Require Import Base Bytes Scanner ScanRun Directive Core Entry C01Proofs ScanTotal StackSafe.
@@ -81,7 +83,7 @@ Proof. exact ScanProjectTerm.scan_project_terminates. Qed.
    every file system, oracle, root file, include tree and fuel, scanProject never ends in one of the
    scanner's impossible states - dispatch to a missing step function, a step function falling off
    its end, a pop of the empty return-state stack, a pop of the empty lexeme-event stack, a lexeme
-   event without a lexeme type - whichever file of the include tree is being scanned, and however
+   event without a lexeme type, a shift off the empty event queue - whichever file of the include tree is being scanned, and however
    often scanners were suspended and resumed (the invariants hold for the current scanner and for
    every suspended one, each relative to its own file) *)
 Theorem C01_project_scan_never_reaches_an_impossible_scanner_state :
@@ -89,7 +91,7 @@ Theorem C01_project_scan_never_reaches_an_impossible_scanner_state :
     scan_project ScannerProg.prog_table ScannerProg.is_newline_cond ScannerProg.is_whitespace_cond
                  fs olen ScannerProg.initial_state fuel
                  (initial_cstate ScannerProg.initial_state root_name root_content) = SPanic (CPScanner p) stx ->
-    p <> PNoState /\ p <> PFallthrough /\ p <> PStepStackEmpty /\ p <> PEventStackEmpty /\ p <> PLexemeType.
+    p <> PNoState /\ p <> PFallthrough /\ p <> PStepStackEmpty /\ p <> PEventStackEmpty /\ p <> PLexemeType /\ p <> PFindsEmpty.
 Proof. exact ProjectSafe.project_scan_never_reaches_an_impossible_scanner_state. Qed.
 
 (* the catalog builder: on every forest whose nesting follows the (regenerated) context table -
